@@ -270,7 +270,8 @@ def run_part_shard(module_name: str, part_name: str, tier: str, seed: int, shard
                     ctx.known_hits[v.key] += 1
                     ctx.end_case(case)
                     return
-                ctx.last_failure = (json.loads(json.dumps(case, default=_json_default)), v.msg, v.key)
+                case_rec = getattr(v, "case_override", None) or case
+                ctx.last_failure = (json.loads(json.dumps(case_rec, default=_json_default)), v.msg, v.key)
                 raise
             ctx.end_case(case)
 
